@@ -271,7 +271,7 @@ End Inline.
 
 (* what the outer build needs to know about a function body built by its own Builder (fresh Scope) *)
 Record fdesc := { fd_node : nat; fd_domain : string; fd_name : string; fd_inputs : list string; fd_outputs : list string;
-                  fd_attrs : list string; fd_body : list mnode; fd_req : req; fd_bodyid : nat }.
+                  fd_attrs : list string; fd_body : list mnode; fd_req : req; fd_bodyid : nat; fd_vals : string }.
 
 Section Compile.
 Variable p : prog.
@@ -279,6 +279,14 @@ Variable un : names.
 Variable args_of : nat -> list var.
 Variable own_of : nat -> list nref.   (* scope_own *)
 Variable fbuild : nat -> nat -> res (list mnode * req * list fdesc).   (* node, body graph ↦ body nodes, body requirements, nested functions *)
+
+(* the attribute VALUES (digests supplied by the reflection) of every node a function body consists of, in traversal order:
+   two FunctionProtos that render alike but hold, say, different Constant tensors are different definitions *)
+Definition body_values (body : nat) : string :=
+  String.concat ";" (flat_map (fun u => match u with
+                                         | NReal n => flat_map (fun ka => match snd ka with AVal r => [r] | AGraph _ => [] end) (attrs (getn p n))
+                                         | NIntro _ => [] end)
+                              (postorder (2 * fuel_of p) (full_adj p) (NIntro body))).
 
 (* compile_graph + (for subgraphs) the value infos that Graph.to_onnx() computes right after it.
    Returns the emitted graph, the threaded scope, the opset requirements and the functions met (own nodes and subgraphs). *)
@@ -308,7 +316,8 @@ Fixpoint compile (fuel : nat) (s : scope) (g : nat) (prefix : string) (is_main :
                                         fd_inputs := match kind nd with KFunc _ a _ _ => a | _ => [] end;
                                         fd_outputs := match kind nd with KFunc _ _ b _ => b | _ => [] end;
                                         fd_attrs := match kind nd with KFunc _ _ _ c => c | _ => [] end;
-                                        fd_body := bnodes; fd_req := brq; fd_bodyid := body |} :: bfs)%list)
+                                        fd_body := bnodes; fd_req := brq; fd_bodyid := body;
+                                        fd_vals := body_values body |} :: bfs)%list)
                      | _ => ret (union req_eqb rq (node_req p u), fs)
                      end ;;
           let '(rq, fs) := meta in
@@ -492,7 +501,8 @@ Fixpoint build_main (ffuel : nat) (p : prog) (un : names) (main : nat) : res bui
 (* Graph.to_onnx_model on the result: one FunctionProto per (domain, name), RuntimeError on two different definitions *)
 Definition function_proto (model_imports : list (string * nat)) (f : fdesc) : mfunction :=
   {| f_domain := fd_domain f; f_name := fd_name f; f_inputs := fd_inputs f; f_outputs := fd_outputs f; f_attrs := fd_attrs f;
-     f_body := fd_body f; f_imports := max_opset_policy (fd_req f ++ model_imports)%list; f_bodyid := fd_bodyid f |}.
+     f_body := fd_body f; f_imports := max_opset_policy (fd_req f ++ model_imports)%list; f_bodyid := fd_bodyid f;
+     f_vals := fd_vals f |}.
 Definition fkey_eqb (a b : mfunction) := String.eqb (f_domain a) (f_domain b) && String.eqb (f_name a) (f_name b).
 
 Definition to_model (b : built) : res model :=
@@ -500,7 +510,8 @@ Definition to_model (b : built) : res model :=
   do funs <- foldM (fun acc f =>
                let pr := function_proto imports f in
                match find (fkey_eqb pr) acc with
-               | Some old => if String.eqb (show_function old) (show_function pr) then ret acc else raise ERuntime
+               | Some old => if String.eqb (show_function old) (show_function pr) && String.eqb (f_vals old) (f_vals pr)
+                             then ret acc else raise ERuntime
                | None => ret (acc ++ [pr])%list end) (b_funs b) [] ;;
   (* the checker also walks every FunctionProto: nodes topologically sorted w.r.t. the function inputs; initializers of a
      body graph are not part of a FunctionProto, so a body that uses one is rejected *)
